@@ -1074,6 +1074,213 @@ Section C.
     eapply EX_cons; [|exact Ha]. exists (S n). rewrite exec_S. exact Hy.
   Qed.
 
+  (* ================= loops whose post statement yields ================= *)
+  Notation LOOP := (LOOP aden cden tden kval yden env).
+
+  Lemma exloop_mono n m c p b w x : n <= m -> exloop n c p b w = Some x -> exloop m c p b w = Some x.
+  Proof.
+    induction 1 as [|m Hle IH]; auto. intros H.
+    apply (proj2 (proj2 (proj2 (proj2 (exec_mono1 aden cden tden kval yden env m))))). auto.
+  Qed.
+
+  (* one iteration of a loop without post statement, relationally *)
+  Definition body0R c b (w2 : W) (x : compl) : Prop :=
+    exists y, EX b w2 y /\
+      match y with
+      | CDone (GNormal | GContinue) w3 => LOOP c None b w3 x
+      | CDone GBreak w3 => x = CDone GNormal w3
+      | other => x = other
+      end.
+
+  Lemma LOOP_intro0 c b w x :
+    match c with
+    | None => body0R c b w x
+    | Some cc => liftR (cden cc (fst w)) (snd w) (fun bb w2 x => if bb then body0R c b w2 x else x = CDone GNormal w2) x
+    end -> LOOP c None b w x.
+  Proof.
+    assert (Hb : forall w2, body0R c b w2 x -> exists n, forall M, n <= M ->
+              (match ex M b w2 with
+               | Some (CDone (GNormal | GContinue) w3) => after_normal (Some (CDone GNormal w3)) (fun w4 => exloop M c None b w4)
+               | Some (CDone GBreak w3) => Some (CDone GNormal w3)
+               | other => other end) = Some x).
+    { intros w2 [y [[n1 Hy] Hm]].
+      destruct y as [g w3|sv w3|w3|w3 pv|]; try (subst x; exists n1; intros M HM; rewrite (@exm _ _ _ aden cden tden kval yden env n1 M b w2 _ HM Hy); reflexivity).
+      destruct g; try (subst x; exists n1; intros M HM; rewrite (@exm _ _ _ aden cden tden kval yden env n1 M b w2 _ HM Hy); reflexivity).
+      - destruct Hm as [n2 Hn2]. exists (n1 + n2). intros M HM. rewrite (@exm _ _ _ aden cden tden kval yden env n1 M b w2 _ ltac:(lia) Hy).
+        cbn [after_normal]. eapply exloop_mono; [|exact Hn2]. lia.
+      - destruct Hm as [n2 Hn2]. exists (n1 + n2). intros M HM. rewrite (@exm _ _ _ aden cden tden kval yden env n1 M b w2 _ ltac:(lia) Hy).
+        cbn [after_normal]. eapply exloop_mono; [|exact Hn2]. lia. }
+    intros H. destruct c as [cc|].
+    - unfold liftR in H. destruct (cden cc (fst w)) as [u bb|u pv|] eqn:Ec.
+      + destruct bb.
+        * destruct (Hb _ H) as [n Hn]. exists (S n). rewrite exec_loop_S. cbv beta zeta. unfold lift. rewrite Ec. apply Hn. lia.
+        * subst x. exists 1. rewrite exec_loop_S. cbv beta zeta. unfold lift. rewrite Ec. reflexivity.
+      + subst x. exists 1. rewrite exec_loop_S. cbv beta zeta. unfold lift. rewrite Ec. reflexivity.
+      + subst x. exists 1. rewrite exec_loop_S. cbv beta zeta. unfold lift. rewrite Ec. reflexivity.
+    - destruct (Hb _ H) as [n Hn]. exists (S n). rewrite exec_loop_S. cbv beta zeta. apply Hn. lia.
+  Qed.
+
+  (* a body that never completes with continue *)
+  Definition nocont (b : list stmt) : Prop := forall n w w', ex n b w <> Some (CDone GContinue w').
+
+  (* the post statement can be run at the end of the body when nothing continues past it *)
+  Lemma loop_post_shift c v b : nocont b ->
+    forall n w x, exloop n c (Some (SYield v)) b w = Some x -> LOOP c None (b ++ [SYield v]) w x.
+  Proof.
+    intros Hnc. induction n as [|n IH]; intros w x H; [discriminate|].
+    rewrite exec_loop_S in H. cbv beta zeta in H.
+    assert (Hbody : forall w2 x2,
+      (match ex n b w2 with
+       | Some (CDone (GNormal | GContinue) w3) =>
+           after_normal (exec n (SYield v) w3) (fun w4 => exloop n c (Some (SYield v)) b w4)
+       | Some (CDone GBreak w3) => Some (CDone GNormal w3)
+       | other => other end) = Some x2 -> body0R c (b ++ [SYield v]) w2 x2).
+    { intros w2 x2 H2. destruct (ex n b w2) as [xb|] eqn:Eb; [|discriminate].
+      assert (Hstop : (forall w', xb <> CDone GNormal w') -> (forall w', xb <> CDone GContinue w') ->
+                match xb with CDone GBreak w3 => Some (CDone GNormal w3) | other => Some other end = Some x2 ->
+                body0R c (b ++ [SYield v]) w2 x2).
+      { intros Hn Hc Hx. exists xb. split.
+        - eapply EX_app; [exists n; exact Eb|]. destruct xb as [g w3| | | |]; cbn; try reflexivity.
+          destruct g; cbn; try reflexivity. exfalso. eapply Hn; reflexivity.
+        - destruct xb as [g w3| | | |]; try (inversion Hx; reflexivity).
+          destruct g; try (inversion Hx; reflexivity); exfalso; [eapply Hn|eapply Hc]; reflexivity. }
+      destruct xb as [g w3|sv w3|w3|w3 pv|]; try (apply Hstop; [discriminate|discriminate|exact H2]).
+      destruct g; try (apply Hstop; [discriminate|discriminate|exact H2]).
+      - (* the body completed normally: the post statement runs *)
+        destruct (exec n (SYield v) w3) as [yp|] eqn:Ep; [|discriminate].
+        exists yp. split.
+        + eapply EX_app; [exists n; exact Eb|]. cbn. apply EX_single. exists n. exact Ep.
+        + destruct yp as [g w4|sv w4|w4|w4 pv|]; cbn [after_normal] in H2; try (inversion H2; reflexivity).
+          destruct g; try (exfalso; destruct n as [|n']; [discriminate|]; rewrite exec_S in Ep; unfold lift in Ep;
+                           destruct (yden v (fst w3)) as [u val|u pv|]; try discriminate; cbn in Ep;
+                           destruct (env (snd w3) val u) as [u' more]; destruct more; discriminate).
+          eapply IH. exact H2.
+      - exfalso. eapply Hnc; exact Eb. }
+    apply LOOP_intro0. destruct c as [cc|].
+    - unfold lift in H. unfold liftR. destruct (cden cc (fst w)) as [u bb|u pv|].
+      + destruct bb; [apply Hbody; exact H|inversion H; reflexivity].
+      + inversion H; reflexivity.
+      + inversion H; reflexivity.
+    - apply Hbody. exact H.
+  Qed.
+
+  Lemma sim_for_post c v b : nocont b ->
+    sim [SFor None c (Some (SYield v)) b] [SFor None c None (b ++ [SYield v])].
+  Proof.
+    intros Hnc. rewrite sim_rel. intros w r H.
+    destruct (TM_single_inv H) as [x [[n Hx] Hr]].
+    destruct n as [|n]; [discriminate|]. rewrite exec_S in Hx. cbn [after_normal] in Hx.
+    destruct (@loop_post_shift c v b Hnc _ _ _ Hx) as [m Hm].
+    eapply TM_single; [|exact Hr]. exists (S m). rewrite exec_S. cbn [after_normal]. exact Hm.
+  Qed.
+
+  (* two callbacks in sequence: seq.Combine(Delay(first half), Delay(second half)) *)
+  Lemma sim_combine b p tb tp : Forall srcok b -> sim b tb -> sim p tp ->
+    sim (b ++ p) [SRet (XCombine (XDelay (TLit tb)) (XDelay (TLit tp)))].
+  Proof.
+    intros Hsrc Hb Hp. rewrite sim_rel in Hb, Hp. rewrite sim_rel. intros w r H.
+    destruct (TM_inv H) as [x [Hx Hr]]. destruct (EX_app_inv _ _ Hx) as [y [Hy Ha]].
+    eapply TM_single; [apply EXS_ret; reflexivity|]. cbn [build normR Rel.normR]. destruct w as [u k]. cbn [fst snd].
+    assert (Hfirst : forall rb, TM b (u, k) rb -> RUN (VDelay (TLit tb)) (u, k) rb).
+    { intros rb Hrb. apply RUN_delay. apply CALL_lit. apply Hb. exact Hrb. }
+    destruct y as [g w'|sv w'|w'|w' pv|]; cbn in Ha.
+    - destruct g; try (subst x; cbn in Hr; subst r;
+                       eapply RUN_combine; [apply Hfirst; eapply TM_intro; [exact Hy|reflexivity]|reflexivity]).
+      eapply RUN_combine; [apply Hfirst; eapply TM_intro; [exact Hy|reflexivity]|]. cbn.
+      apply RUN_delay. apply CALL_lit. apply Hp. eapply TM_intro; eauto.
+    - subst x. cbn in Hr. assert (sv = VSig GReturn) by (eapply EX_srcok_ret; eauto). subst sv.
+      apply RUN_sig_inv in Hr. subst r.
+      eapply RUN_combine; [apply Hfirst; eapply TM_intro; [exact Hy|apply RUN_sig]|reflexivity].
+    - subst x. cbn in Hr. subst r. eapply RUN_combine; [apply Hfirst; eapply TM_intro; [exact Hy|reflexivity]|reflexivity].
+    - subst x. cbn in Hr. subst r. eapply RUN_combine; [apply Hfirst; eapply TM_intro; [exact Hy|reflexivity]|reflexivity].
+    - subst x. cbn in Hr. subst r. eapply RUN_combine; [apply Hfirst; eapply TM_intro; [exact Hy|reflexivity]|reflexivity].
+  Qed.
+
+  (* a native-only target prefix that simulates a native-only source prefix falls through exactly when it does *)
+  Lemma sim_prefix_Nseq b tb l : Forall srcok b -> Forall srcok tb -> sim b tb ->
+    forall n w r, N n (b ++ l) w = Some r -> exists m, Nseq m tb l w = Some r.
+  Proof.
+    intros Hb Htb Hs n w r H. unfold RwBase.N in H.
+    destruct (ex n (b ++ l) w) as [x|] eqn:E; [|discriminate].
+    destruct (@ex_app_fwd _ _ _ aden cden tden kval yden env n b l w x E) as [[Eb Hn]|[w' [Eb [m1 [Hm1 El]]]]].
+    - (* the prefix did not fall through *)
+      assert (Hb' : N n b w = Some r) by (unfold RwBase.N; rewrite Eb; exact H).
+      destruct (Hs _ _ _ Hb') as [m Hm]. exists (S m). unfold Nseq. unfold RwBase.N in Hm.
+      destruct (ex m tb w) as [y|] eqn:Ey; [|discriminate].
+      rewrite (@exm _ _ _ aden cden tden kval yden env m (S m) tb w y ltac:(lia) Ey).
+      assert (Hr : forall w0, r <> CDone GNormal w0).
+      { intros w0 Hr0. subst r. destruct x as [g w1|sv w1| | |]; cbn in H; try discriminate.
+        - inversion H; subst. eapply Hn; reflexivity.
+        - assert (sv = VSig GReturn) by (eapply (@ex_srcok_ret n b w sv w1); [exact Hb|exact Eb]). subst sv. destruct n; [discriminate|]. rewrite rung_sig in H. discriminate. }
+      destruct y as [g w1|sv w1|w1|w1 pv|]; cbn in Hm; try exact Hm.
+      + destruct g; try exact Hm. exfalso. inversion Hm; subst. eapply Hr; reflexivity.
+      + assert (sv = VSig GReturn) by (eapply (@ex_srcok_ret m tb w sv w1); [exact Htb|exact Ey]). subst sv.
+        destruct m; [discriminate|]. rewrite rung_sig in Hm. rewrite rung_sig. exact Hm.
+    - (* the prefix fell through to l *)
+      assert (Hb' : N n b w = Some (CDone GNormal w')) by (unfold RwBase.N; rewrite Eb; reflexivity).
+      destruct (Hs _ _ _ Hb') as [m Hm]. unfold RwBase.N in Hm.
+      destruct (ex m tb w) as [y|] eqn:Ey; [|discriminate].
+      assert (y = CDone GNormal w').
+      { destruct y as [g w1|sv w1|w1|w1 pv|]; cbn in Hm; try (inversion Hm; reflexivity).
+        assert (sv = VSig GReturn) by (eapply (@ex_srcok_ret m tb w sv w1); [exact Htb|exact Ey]). subst sv. destruct m; [discriminate|]. rewrite rung_sig in Hm. discriminate. }
+      subst y. exists (m + n). unfold Nseq.
+      rewrite (@exm _ _ _ aden cden tden kval yden env m (m + n) tb w _ ltac:(lia) Ey).
+      unfold RwBase.N. rewrite (@exm _ _ _ aden cden tden kval yden env m1 (m + n) l w' x ltac:(lia) El).
+      eapply norm_mono'; [|exact H]. lia.
+  Qed.
+
+  (* blocks that end in a trivial statement consist of source statements only *)
+  Definition trivQ (B : blk) : Prop := combineRequired B = false -> Forall srcok (bstmts B).
+  Definition chk (c : blk) : Prop := combineRequired c = true -> checked c = false.
+  Definition KQ (kk : blk -> res blk) : Prop := forall c B, trivQ c -> chk c -> kk c = OK B -> trivQ B.
+  Definition KQ0 (k' : blk -> res blk) : Prop :=
+    forall c B, combineRequired c = false -> Forall srcok (bstmts c) -> k' c = OK B -> trivQ B.
+
+  Lemma combineRequired_pushReturn c e k c' : pushReturn c e k = OK c' -> combineRequired c' = true.
+  Proof. intros H. destruct (lastKind_pushReturn _ _ _ H) as [Hl Hk]. unfold combineRequired. rewrite Hl. destruct k; auto; discriminate. Qed.
+
+  Lemma trivQ_ret c e k c' : pushReturn c e k = OK c' -> trivQ c' /\ chk c'.
+  Proof.
+    intros H. split; [intros Hcr; rewrite (combineRequired_pushReturn _ _ _ H) in Hcr; discriminate|].
+    intros _. unfold pushReturn in H. destruct (negb (is_ret_kind k)); [discriminate|].
+    destruct (push c (SRet e) k) as [b|] eqn:E; cbn [bind] in H; [|discriminate]. inversion H; subst. cbn [checked]. apply (checked_push _ _ _ E).
+  Qed.
+
+  Lemma trivQ_push c s k c' : Forall srcok (bstmts c) -> (k = KTrivial -> srcok s) -> push c s k = OK c' -> trivQ c' /\ chk c'.
+  Proof.
+    intros Hc Hs H. split; [|intros _; apply (checked_push _ _ _ H)].
+    intros Hcr'. rewrite (push_stmts _ _ _ H). apply Forall_app. split; [exact Hc|].
+    constructor; [|constructor]. apply Hs. unfold combineRequired in Hcr'. rewrite (lastKind_push _ _ _ H) in Hcr'. destruct k; try discriminate; reflexivity.
+  Qed.
+
+  Lemma trivQ_gln c c' : trivQ c -> gln c = OK c' -> trivQ c'.
+  Proof.
+    intros Hc H. unfold gln in H. destruct (bkind c); try (inversion H; subst; exact Hc).
+    all: destruct (returnNormalRequired c) as [[|]|]; cbn [bind] in H; try discriminate; try (inversion H; subst; exact Hc).
+    all: intros Hcr; rewrite (combineRequired_pushReturn _ _ _ H) in Hcr; discriminate.
+  Qed.
+
+  Lemma comb_KQ c k' B : trivQ c -> KQ0 k' -> comb c k' = OK B -> trivQ B.
+  Proof.
+    intros Hc Hk H. unfold comb in H. rewrite combineRequired_mark in H.
+    destruct (combineRequired c) eqn:Ecr; cbn [negb] in H.
+    - destruct (pop (markCombined c)) as [[[s kd] c'']|]; cbn [bind] in H; [|discriminate].
+      destruct (push (mkBlock KDelay) s kd) as [c1|]; cbn [bind] in H; [|discriminate].
+      destruct (gln c1) as [c1'|]; cbn [bind] in H; [|discriminate].
+      destruct (k' (mkBlock KDelay)) as [fol|]; cbn [bind] in H; [|discriminate].
+      intros Hcr. rewrite (combineRequired_pushReturn _ _ _ H) in Hcr. discriminate.
+    - eapply (Hk (markCombined c) B); [exact Ecr|apply Hc; exact Ecr|exact H].
+  Qed.
+
+  (* a continuation is only handed blocks it could have been handed by push *)
+  Lemma KQ_push_triv kk c s B : KQ kk -> trivQ c -> chk c -> srcok s -> (c1 <- push c s KTrivial ;; kk c1) = OK B -> trivQ B.
+  Proof.
+    intros Hk Hc Hchk Hs H. destruct (push c s KTrivial) as [c1|] eqn:E; cbn [bind] in H; [|discriminate].
+    assert (Hcr : combineRequired c = false).
+    { destruct (combineRequired c) eqn:Ecr; [|reflexivity]. unfold push in E. rewrite (Hchk Ecr) in E. discriminate. }
+    destruct (@trivQ_push c s KTrivial c1 (Hc Hcr) (fun _ => Hs) E) as [H1 H2]. eapply (Hk c1 B); eauto.
+  Qed.
+
   (* ================= supported statements (boolean, by fuel) ================= *)
   Lemma supp_S k s :
     supp (S k) s =
@@ -1088,7 +1295,7 @@ Section C.
           | EElse b => forallb (supp k) b
           | EElif x => is_if x && supp k x
           end
-      | SFor i c p b => init_ok2 i && init_ok p && forallb (supp k) b
+      | SFor i c p b => init_ok2 i && post_okb k p b && forallb (supp k) b
       | SSwitch i t cs => init_ok2 i && forallb (fun lb => clause_ok (supp k) k (snd lb)) cs
       | _ => false
       end.
@@ -1124,7 +1331,8 @@ Section C.
     - apply andb_prop in H. destruct H as [Hi Hc]. apply Forall_forall. intros lb Hlb.
       rewrite forallb_forall in Hc. specialize (Hc lb Hlb). apply clause_ok_inv in Hc. apply HL. tauto.
     - apply andb_prop in H. destruct H as [H Hb]. apply andb_prop in H. destruct H as [Hi Hp]. apply init_ok2_srcok; exact Hi.
-    - apply andb_prop in H. destruct H as [H Hb]. apply andb_prop in H. destruct H as [Hi Hp]. apply init_ok_srcok; exact Hp.
+    - apply andb_prop in H. destruct H as [H Hb]. apply andb_prop in H. destruct H as [Hi Hp].
+      intros x ->. unfold post_okb in Hp. destruct x; try discriminate; constructor.
     - apply andb_prop in H. destruct H as [H Hb]. apply HL; exact Hb.
     - destruct e; try discriminate. constructor.
   Qed.
@@ -1279,6 +1487,94 @@ Section C.
     intros H. unfold unwrapIf. destruct b' as [|s [|s2 r]]; cbn; try exact H; destruct s; cbn; exact H.
   Qed.
 
+  (* blocks whose last statement is trivial hold source statements only: the rewriter re-emits the
+     original statement on every trivial path *)
+  Lemma rw_triv f :
+    (forall ss cur B, Forall srcok ss -> Forall srcok (bstmts cur) -> combineRequired cur = false ->
+        rw_stmts f ss cur = OK B -> trivQ B) /\
+    (forall s isLast cur kk B, srcok s -> Forall srcok (bstmts cur) -> combineRequired cur = false -> KQ kk ->
+        rw_stmt f s isLast cur kk = OK B -> trivQ B) /\
+    (forall s cur c', srcok s -> Forall srcok (bstmts cur) -> rw_if f s cur = OK c' -> trivQ c' /\ chk c') /\
+    (forall init c post b cur kk B, srcok (SFor init c post b) -> Forall srcok (bstmts cur) -> combineRequired cur = false -> KQ kk ->
+        rw_for f (SFor init c post b) init c post b cur kk = OK B -> trivQ B) /\
+    (forall init tag cases cur kk B, srcok (SSwitch init tag cases) -> Forall srcok (bstmts cur) -> combineRequired cur = false -> KQ kk ->
+        rw_switch f (SSwitch init tag cases) init tag cases cur kk = OK B -> trivQ B).
+  Proof.
+    induction f as [|f [IH1 [IH2 [IH3 [IH4 IH5]]]]]; [repeat split; intros; discriminate|].
+    assert (Hcur2 : forall cur, Forall srcok (bstmts cur) -> combineRequired cur = false -> trivQ cur /\ chk cur).
+    { intros cur Hc Hcr. split; [intros _; exact Hc|intros E; congruence]. }
+    assert (Hinit : forall (init : option stmt) cur after B, (forall x, init = Some x -> srcok x) ->
+              Forall srcok (bstmts cur) -> combineRequired cur = false -> KQ after ->
+              match init with None => after cur | Some i => rw_stmt f i false cur after end = OK B -> trivQ B).
+    { intros init cur after B Hi Hc Hcr Ha H. destruct init as [i|].
+      - eapply IH2; [apply Hi; reflexivity|exact Hc|exact Hcr|exact Ha|exact H].
+      - destruct (Hcur2 cur Hc Hcr) as [H1 H2]. eapply Ha; eauto. }
+    split; [|split; [|split; [|split]]].
+    - intros ss cur B Hss Hc Hcr H. rewrite rw_stmts_S in H. destruct ss as [|s rest].
+      + destruct (bkind cur); try (inversion H; subst; intros _; exact Hc). eapply trivQ_gln; [|exact H]. intros _; exact Hc.
+      + inversion Hss as [|s0 r0 Hs Hrest]; subst. cbv zeta in H.
+        eapply IH2; [exact Hs|exact Hc|exact Hcr| |exact H].
+        intros fol B' Hfol _ HB'. destruct rest as [|s2 rest2].
+        * destruct (bkind fol); try (inversion HB'; subst; exact Hfol). eapply trivQ_gln; eauto.
+        * eapply comb_KQ; [exact Hfol| |exact HB']. intros c2 B2 Hcr2 Hc2 H2. eapply (IH1 (s2 :: rest2) c2 B2); [exact Hrest|exact Hc2|exact Hcr2|exact H2].
+    - intros s isLast cur kk B Hs Hc Hcr Hk H. rewrite rw_stmt_S in H. destruct (Hcur2 cur Hc Hcr) as [Hq Hchk].
+      destruct s as [a|v|b|ini cnd th el|ini tag cases|ini cnd post b| | | | |e].
+      + eapply KQ_push_triv; eauto.
+      + destruct isLast.
+        * destruct (bind_ok _ _ H) as [fol [_ H']]. apply (proj1 (@trivQ_ret _ _ _ _ H')).
+        * destruct (bind_ok _ _ H) as [fol [_ H']]. apply (proj1 (@trivQ_ret _ _ _ _ H')).
+      + destruct (bind_ok _ _ H) as [fol [_ H']]. destruct (mustNoYield fol).
+        * eapply KQ_push_triv; eauto.
+        * destruct (bind_ok _ _ H') as [c [Hc' Hk']]. destruct (@trivQ_ret _ _ _ _ Hc') as [H1 H2]. eapply Hk; eauto.
+      + destruct (bind_ok _ _ H) as [c [Hc' H']]. destruct (IH3 _ _ _ Hs Hc Hc') as [H1 H2].
+        destruct isLast; [eapply trivQ_gln; eauto|eapply Hk; eauto].
+      + eapply IH5; [exact Hs|exact Hc|exact Hcr| |exact H]. intros c0 B0 H1 H2 H0.
+        destruct isLast; [|eapply Hk; eauto]. destruct (lastKind c0) as [[]|]; try (eapply Hk; eauto; fail). eapply trivQ_gln; eauto.
+      + eapply IH4; eauto.
+      + apply (proj1 (@trivQ_push cur _ KTrivial B Hc (fun _ => Hs) H)).
+      + apply (proj1 (@trivQ_push cur _ KTrivial B Hc (fun _ => Hs) H)).
+      + eapply KQ_push_triv; eauto.
+      + apply (proj1 (@trivQ_push cur _ KTrivial B Hc (fun _ => Hs) H)).
+      + eapply KQ_push_triv; eauto.
+    - intros s cur c' Hs Hc H. rewrite rw_if_S in H. destruct s as [a|v|b|init c th el|ini tag cases|ini cnd post b| | | | |e]; try discriminate.
+      destruct (hasYo init); [discriminate|]. destruct (bind_ok _ _ H) as [body [_ H']].
+      assert (Hp : forall s0 kd c1, (kd = KTrivial -> s0 = SIf init c th el) -> push cur s0 kd = OK c1 -> trivQ c1 /\ chk c1).
+      { intros s0 kd c1 Hkd Hpu. eapply trivQ_push; [exact Hc| |exact Hpu]. intros E. rewrite (Hkd E). exact Hs. }
+      destruct el as [|eb|alt].
+      + destruct (mustNoYield body); eapply Hp; try exact H'; try reflexivity; discriminate.
+      + destruct (bind_ok _ _ H') as [els [_ H'']]. destruct (mustNoYield body && mustNoYield els); eapply Hp; try exact H''; try reflexivity; discriminate.
+      + destruct (bind_ok _ _ H') as [els [_ H'']]. destruct (mustNoYield body && mustNoYield els); eapply Hp; try exact H''; try reflexivity; discriminate.
+    - intros init c post b cur kk B Hs Hc Hcr Hk H. rewrite rw_for_S in H. destruct (bind_ok _ _ H) as [body [_ H']]. clear H. cbv zeta in H'.
+      destruct (Hcur2 cur Hc Hcr) as [Hq Hchk].
+      assert (Hsrc0 : srcok (SFor None c post b)).
+      { inversion Hs; subst. constructor; auto. intros x Hx; discriminate. }
+      assert (Hi : forall x, init = Some x -> srcok x) by (inversion Hs; subst; assumption).
+      destruct (negb (hasYo init) && negb (hasYo post) && mustNoYield body); [exact (@KQ_push_triv kk cur _ B Hk Hq Hchk Hs H')|].
+      eapply Hinit; [exact Hi|exact Hc|exact Hcr| |exact H'].
+      intros c2 B2 Hc2 Hchk2 H2.
+      assert (Hpushk : KQ0 (fun c3 => c4 <- push c3 (SFor None c post b) KTrivial ;; kk c4)).
+      { intros c3 B3 Hcr3 Hc3 H3. destruct (bind_ok _ _ H3) as [c4 [Hc4 Hk4]].
+        destruct (@trivQ_push c3 _ KTrivial c4 Hc3 (fun _ => Hsrc0) Hc4) as [H5 H6]. eapply Hk; eauto. }
+      assert (Hretk : forall e, KQ0 (fun c3 => c4 <- pushReturn c3 e KFor ;; kk c4)).
+      { intros e c3 B3 Hcr3 Hc3 H3. destruct (bind_ok _ _ H3) as [c4 [Hc4 Hk4]].
+        destruct (@trivQ_ret _ _ _ _ Hc4) as [H5 H6]. eapply Hk; eauto. }
+      destruct (mustNoYield body && negb (hasYo post)); [eapply comb_KQ; eauto|].
+      destruct (negb (hasYo post)); [eapply comb_KQ; [exact Hc2|apply Hretk|exact H2]|].
+      destruct post as [p|]; [|discriminate]. destruct (bind_ok _ _ H2) as [body' [_ H2']].
+      eapply comb_KQ; [exact Hc2|apply Hretk|exact H2'].
+    - intros init tag cases cur kk B Hs Hc Hcr Hk H. rewrite rw_switch_S in H. destruct (bind_ok _ _ H) as [[cases' allTrivial] [_ H']]. clear H.
+      destruct (Hcur2 cur Hc Hcr) as [Hq Hchk].
+      assert (Hsrc0 : srcok (SSwitch None tag cases)).
+      { inversion Hs; subst. constructor; auto. intros x Hx; discriminate. }
+      assert (Hi : forall x, init = Some x -> srcok x) by (inversion Hs; subst; assumption).
+      destruct (negb (hasYo init) && allTrivial); [exact (@KQ_push_triv kk cur _ B Hk Hq Hchk Hs H')|].
+      eapply Hinit; [exact Hi|exact Hc|exact Hcr| |exact H'].
+      intros c2 B2 Hc2 Hchk2 H2. destruct allTrivial.
+      + exact (@KQ_push_triv kk c2 _ B2 Hk Hc2 Hchk2 Hsrc0 H2).
+      + eapply comb_KQ; [exact Hc2| |exact H2]. intros c3 B3 Hcr3 Hc3 H3. destruct (bind_ok _ _ H3) as [c4 [Hc4 Hk4]].
+        destruct (@trivQ_push c3 (SSwitch None tag cases') KSwitch c4 Hc3 ltac:(discriminate) Hc4) as [H5 H6]. eapply Hk; eauto.
+  Qed.
+
   Lemma pass2_correct f :
     (forall k ss cur B, supps k ss = true -> Forall srcok (bstmts cur) -> combineRequired cur = false ->
         rw_stmts f ss cur = OK B ->
@@ -1407,31 +1703,81 @@ Section C.
       { inversion Hsrc; subst. constructor; auto. intros x Hx; discriminate. }
       assert (Hs1 : supp (S k) (SFor None c post b) = true) by (rewrite supp_S, Hp, Hb; reflexivity).
       rewrite rw_for_S in HB. destruct (bind_ok _ _ HB) as [body [Hbody HB']]. clear HB. cbv zeta in HB'.
-      rewrite (init_ok_hasYo _ Hp) in HB'. cbn [negb] in HB'. rewrite !andb_true_r in HB'.
       assert (Sb : sim b (bstmts body)) by (eapply Hsub; eauto).
-      (* what follows the (hoisted) init statement *)
-      set (after := fun c2 : blk =>
-             if mustNoYield body then comb c2 (fun c3 => c4 <- push c3 (SFor None c post b) KTrivial ;; kk c4)
-             else comb c2 (fun c3 => c4 <- pushReturn c3 (XFor (option_map CExp c) post (XDelay (TLit (bstmts body)))) KFor ;; kk c4)) in HB'.
-      assert (Hafter : Kspec' after (SFor None c post b :: rest)).
-      { unfold after. destruct (mustNoYield body).
-        - apply comb_spec. intros c3 B3 Hc3 _ HB3 n w r H. destruct (bind_ok _ _ HB3) as [c4 [Hc4 HkB]].
-          destruct (@Nseq_shift _ _ _ _ _ _ Hc3 Hsrc0 H) as [m Hm].
-          eapply (Hk c4 B3); [eapply binv_push_triv; [exact Hc3|exact Hsrc0|exact Hc4]|exact HkB|]. rewrite (push_stmts _ _ _ Hc4). exact Hm.
-        - apply comb_spec. intros c3 B3 Hc3 _ HB3 n w r H. destruct (bind_ok _ _ HB3) as [c4 [Hc4 HkB]].
-          destruct (@Nseq_shift_sim _ _ _ _ _ _ _ Hc3 Hsrc0 (@sim_for c post b (bstmts body) Sb Hbsrc Hp) H) as [m Hm].
-          eapply Hk; [eapply binv_pushReturn; eauto|exact HkB|]. rewrite (pushReturn_stmts _ _ _ Hc4). exact Hm. }
-      destruct (negb (hasYo init) && mustNoYield body) eqn:Etriv.
-      + (* nothing yields: the loop stays native *)
-        destruct (bind_ok _ _ HB') as [c1 [Hc1 HkB]]. intros n w r H.
-        destruct (@Nseq_shift _ _ _ _ _ _ Hcur Hsrc H) as [m Hm].
-        eapply (Hk c1 B); [eapply binv_push_triv; [exact Hcur|exact Hsrc|exact Hc1]|exact HkB|]. rewrite (push_stmts _ _ _ Hc1). exact Hm.
-      + destruct init as [i|].
-        * intros n w r H. destruct (@Nseq_sim_rest _ _ _ _ _ _ (sim_for_init i c post b rest) H) as [n1 H1].
+      (* the common end: given what follows the (hoisted) init statement *)
+      assert (Hend : forall after, Kspec' after (SFor None c post b :: rest) ->
+                match init with None => after cur | Some i => rw_stmt f i false cur after end = OK B ->
+                forall n w r, Nseq n (bstmts cur) (SFor init c post b :: rest) w = Some r -> exists m, N m (bstmts B) w = Some r).
+      { intros after Hafter HB2. destruct init as [i|].
+        - intros n w r H. destruct (@Nseq_sim_rest _ _ _ _ _ _ (sim_for_init i c post b rest) H) as [n1 H1].
           eapply (IH2 (S k) i false cur after (SFor None c post b :: rest) B);
-            [eapply init_ok2_supp; eauto| |exact Hcur|exact Hcr|discriminate|exact Hafter|exact HB'|exact H1].
+            [eapply init_ok2_supp; eauto| |exact Hcur|exact Hcr|discriminate|exact Hafter|exact HB2|exact H1].
           unfold supps. cbn [forallb]. rewrite Hs1. exact Hrest.
-        * intros n w r H. eapply (Hafter cur B); [left; split; assumption|exact HB'|exact H].
+        - intros n w r H. eapply (Hafter cur B); [left; split; assumption|exact HB2|exact H]. }
+      destruct (init_ok post) eqn:Hpo.
+      + (* the post statement does not yield *)
+        rewrite (init_ok_hasYo _ Hpo) in HB'. cbn [negb] in HB'. rewrite !andb_true_r in HB'.
+        set (after := fun c2 : blk =>
+               if mustNoYield body then comb c2 (fun c3 => c4 <- push c3 (SFor None c post b) KTrivial ;; kk c4)
+               else comb c2 (fun c3 => c4 <- pushReturn c3 (XFor (option_map CExp c) post (XDelay (TLit (bstmts body)))) KFor ;; kk c4)) in HB'.
+        assert (Hafter : Kspec' after (SFor None c post b :: rest)).
+        { unfold after. destruct (mustNoYield body).
+          - apply comb_spec. intros c3 B3 Hc3 _ HB3 n w r H. destruct (bind_ok _ _ HB3) as [c4 [Hc4 HkB]].
+            destruct (@Nseq_shift _ _ _ _ _ _ Hc3 Hsrc0 H) as [m Hm].
+            eapply (Hk c4 B3); [eapply binv_push_triv; [exact Hc3|exact Hsrc0|exact Hc4]|exact HkB|]. rewrite (push_stmts _ _ _ Hc4). exact Hm.
+          - apply comb_spec. intros c3 B3 Hc3 _ HB3 n w r H. destruct (bind_ok _ _ HB3) as [c4 [Hc4 HkB]].
+            destruct (@Nseq_shift_sim _ _ _ _ _ _ _ Hc3 Hsrc0 (@sim_for c post b (bstmts body) Sb Hbsrc Hpo) H) as [m Hm].
+            eapply Hk; [eapply binv_pushReturn; eauto|exact HkB|]. rewrite (pushReturn_stmts _ _ _ Hc4). exact Hm. }
+        destruct (negb (hasYo init) && mustNoYield body) eqn:Etriv.
+        * destruct (bind_ok _ _ HB') as [c1 [Hc1 HkB]]. intros n w r H.
+          destruct (@Nseq_shift _ _ _ _ _ _ Hcur Hsrc H) as [m Hm].
+          eapply (Hk c1 B); [eapply binv_push_triv; [exact Hcur|exact Hsrc|exact Hc1]|exact HkB|]. rewrite (push_stmts _ _ _ Hc1). exact Hm.
+        * exact (Hend after Hafter HB').
+      + (* the post statement is a Yield: it becomes the end of the body callback *)
+        unfold post_okb in Hp. destruct post as [[a|v|? |? ? ? ?|? ? ?|? ? ? ?| | | | |?]|]; try discriminate.
+        change (hasYo (Some (SYield v))) with true in HB'. cbn [negb andb] in HB'. rewrite !andb_false_r in HB'. cbn [negb] in HB'.
+        assert (Hnc : nocont b).
+        { intros n w w' E. pose proof (proj1 (proj2 (ok_exec U V P aden cden tden kval yden env n)) k false true false b w _ Hp E) as Hok.
+          cbn in Hok. discriminate. }
+        set (E := if combineRequired body
+                  then pb <- rw_stmt f (SYield v) true (mkBlock KDelay) (fun x => OK x) ;;
+                       match lastStmt pb with
+                       | Some (SRet _) => b1 <- gln body ;;
+                           pushReturn (mkBlock (bkind body)) (XCombine (XDelay (TLit (bstmts b1))) (XDelay (TLit (bstmts pb)))) KCombine
+                       | _ => Err E_POST_NOT_RETURN
+                       end
+                  else rw_stmt f (SYield v) true (markCombined body) (fun x => OK x)) in HB'.
+        set (after := fun c2 : blk =>
+               body' <- E ;;
+               comb c2 (fun c3 => c4 <- pushReturn c3 (XFor (option_map CExp c) None (XDelay (TLit (bstmts body')))) KFor ;; kk c4)) in HB'.
+        assert (Hks : Kspec' (fun x : blk => OK x) []).
+        { intros c0 B0 _ H0 n w r H. inversion H0; subst. exact (Nseq_nil _ _ _ H). }
+        assert (HE : forall body', E = OK body' -> sim (b ++ [SYield v]) (bstmts body')).
+        { intros body' HE. unfold E in HE. destruct (combineRequired body) eqn:Ecr.
+          - destruct (bind_ok _ _ HE) as [pb [Hpb HE2]].
+            assert (Sp : sim [SYield v] (bstmts pb)).
+            { intros n w r H. eapply (IH2 1 (SYield v) true (mkBlock KDelay) (fun x => OK x) [] pb);
+                [reflexivity|reflexivity|apply Forall_nil|reflexivity|reflexivity|exact Hks|exact Hpb|]. apply Nseq_empty. exact H. }
+            destruct (lastStmt pb) as [[]|]; try discriminate.
+            destruct (bind_ok _ _ HE2) as [b1 [Hb1 HE3]]. rewrite (pushReturn_stmts _ _ _ HE3). cbn [mkBlock bstmts app].
+            apply sim_combine; [exact Hbsrc| |exact Sp]. eapply sim_trans; [exact Sb|]. apply (@gln_sim body b1 Hb1).
+          - assert (Hq : Forall srcok (bstmts body)).
+            { eapply (proj1 (rw_triv f) b (mkBlock KFor) body Hbsrc (Forall_nil _) eq_refl Hbody). exact Ecr. }
+            intros n w r H. destruct (@sim_prefix_Nseq b (bstmts body) [SYield v] Hbsrc Hq Sb n w r H) as [m Hm].
+            eapply (IH2 1 (SYield v) true (markCombined body) (fun x => OK x) [] body');
+              [reflexivity|reflexivity|exact Hq|exact Ecr|reflexivity|exact Hks|exact HE|exact Hm]. }
+        assert (Hafter : Kspec' after (SFor None c (Some (SYield v)) b :: rest)).
+        { intros c2 B2 Hc2 HB2 n w r H. unfold after in HB2. destruct (bind_ok _ _ HB2) as [body' [HE' HB3]].
+          assert (S1 : sim [SFor None c (Some (SYield v)) b] [SRet (XFor (option_map CExp c) None (XDelay (TLit (bstmts body'))))]).
+          { eapply sim_trans; [apply (sim_for_post c v Hnc)|].
+            apply (@sim_for c None (b ++ [SYield v]) (bstmts body') (HE body' HE')); [|reflexivity].
+            apply Forall_app. split; [exact Hbsrc|constructor; [constructor|constructor]]. }
+          revert n w r H. change (Kspec' (fun c2 => comb c2 (fun c3 => c4 <- pushReturn c3 (XFor (option_map CExp c) None (XDelay (TLit (bstmts body')))) KFor ;; kk c4)) (SFor None c (Some (SYield v)) b :: rest) c2 B2 Hc2 HB3) || idtac.
+          eapply (@comb_spec (fun c3 => c4 <- pushReturn c3 (XFor (option_map CExp c) None (XDelay (TLit (bstmts body')))) KFor ;; kk c4) (SFor None c (Some (SYield v)) b :: rest)); [|exact Hc2|exact HB3].
+          intros c3 B3 Hc3 _ HB4 n w r H. destruct (bind_ok _ _ HB4) as [c4 [Hc4 HkB]].
+          destruct (@Nseq_shift_sim _ _ _ _ _ _ _ Hc3 Hsrc0 S1 H) as [m Hm].
+          eapply Hk; [eapply binv_pushReturn; eauto|exact HkB|]. rewrite (pushReturn_stmts _ _ _ Hc4). exact Hm. }
+        exact (Hend after Hafter HB').
     - (* rw_switch *)
       intros k init tag cases cur kk rest B Hs Hrest Hcur Hcr Hk HB.
       destruct k as [|k]; [discriminate|]. pose proof Hs as Hs0. rewrite supp_S in Hs.
